@@ -1,0 +1,9 @@
+//go:build verif
+
+// Machine-checked contracts for package flows/engine (comment-only; read by /verif/gocv).
+
+package engine
+
+// representation facts every session built by NewSession/ReadSession satisfies: environment and
+// assets are set, the assets object is the engine's own with all asset groups initialised
+//@ pred SessRep(s *session) bool := s != nil && !isnil(s.env) && !isnil(s.assets) && s.assets.(*sessionAssets) != nil && s.assets.(*sessionAssets).locations != nil
